@@ -21,7 +21,7 @@ import time
 from harness import tlc, core
 from harness.tlc import tla
 
-SETS = [1, 2, 3, 7, 9, 16, 18]
+SETS = [1, 2, 3, 7, 9, 16, 18, 37]
 ROW_T = list(range(1, 13))
 Y_T = {6, 7, 8, 10}                      # templates using the decision rule
 OBJ_DET = [21, 22]
@@ -35,7 +35,7 @@ ALPHABET = dict(Scales={(1, 1), (2, 1), (1, 2), (3, 1)},
                 Fronts={'ro', 'dro', 'droE'})
 SOLVERS = ('def', 'ort', 'grb')
 SECOND = {'def': 'grb', 'ort': 'def', 'grb': 'def'}
-NCONS = {1: 2, 2: 2, 3: 2, 7: 1, 9: 2, 16: 2, 18: 4}       # Rewrite.NCons
+NCONS = {1: 2, 2: 2, 3: 2, 7: 1, 9: 2, 16: 2, 18: 4, 37: 4}       # Rewrite.NCons
 
 
 # --------------------------------------------------------------------------------------------------
